@@ -38,6 +38,12 @@ func genRoutingCase(t *rapid.T, adversarial bool) RoutingCase {
 		}
 		c.Extra["trace_off_nil"] = 1 // tracing is switched off with TraceLogger(nil)
 	}
+	if rapid.IntRange(0, 2).Draw(t, "entityhandlers") == 0 {
+		if c.Extra == nil {
+			c.Extra = map[string]int64{}
+		}
+		c.Extra["entity_handlers"] = 1
+	}
 	if rapid.IntRange(0, 2).Draw(t, "viaserve") == 0 {
 		// through ServeHTTP: net/http's mux sits in front (pattern registration, path cleaning)
 		c.Via = harness.ViaServe
@@ -52,14 +58,13 @@ func muxAnswered(via string, o harness.Outcome) bool {
 }
 
 func buildRouting(c RoutingCase, rec *harness.Recorder, nContainerFilters int) (*restful.Container, interface{}) {
-	swapped := c.Extra["router_swapped"] == 1
-	if c.Via == harness.ViaServe {
-		return buildWith(c.Table, &harness.Options{Router: c.Router, ContainerFilters: nContainerFilters, SwapRouterFirst: swapped}, rec, false)
+	opt := &harness.Options{Router: c.Router, ContainerFilters: nContainerFilters, SwapRouterFirst: c.Extra["router_swapped"] == 1}
+	if c.Extra["entity_handlers"] == 1 {
+		// the route functions answer with WriteEntity: whatever Accept header the router let
+		// through also reaches the entity writer's parser
+		opt.Handler = harness.EntityHandler
 	}
-	if swapped {
-		return buildDispatchOnlySwapped(c.Table, c.Router, rec, nContainerFilters)
-	}
-	return buildDispatchOnly(c.Table, c.Router, rec, nContainerFilters)
+	return buildWith(c.Table, opt, rec, c.Via != harness.ViaServe)
 }
 
 func viaOf(c RoutingCase) string {
